@@ -96,6 +96,15 @@ void c6_reset(void)
 	memcpy(&kernel, &kernel0, sizeof(kernel)); memcpy(atomic_runq_buf, buf0, sizeof(buf0));
 	memset(evq_store, 0, sizeof(evq_store));
 	fibre_eventq_init(&evq, body_h, evq_store, (size_t)(2 * C6.evq_depth), 2);
+	/* an event queue that is not new: its cursors have been round the ring evq_adv times slot by slot (the cycles go through
+	 * the message queue the event queue is built on, so no fibre is woken and the scheduler's start state is unchanged) */
+	for (int i = 0; i < C6.evq_adv; i++) {
+		uint8_t *e = messageq_claim(&evq.eventq);
+		if (!e) { orc_queue_problem("set-up: the idle event queue refused a claim"); break; }
+		e[0] = e[1] = 0; messageq_send(&evq.eventq, e);
+		if (messageq_receive(&evq.eventq) != (void *)e) { orc_queue_problem("set-up: the event queue did not return the event just sent"); break; }
+		messageq_release(&evq.eventq, e);
+	}
 	fibre_init(&fy, body_y); fibre_init(&fz, body_z);
 	memset(&P, 0, sizeof(P));
 	/* prefill_aq = n: n requests for Y; 10 + n: the first of the n is for Z (the only request that fibre has) */
